@@ -28,6 +28,7 @@ M0 == [cfg |-> [mode |-> "ip4", filter |-> "all", maxnodes |-> 16, vote_min |-> 
        reqs |-> <<>>,       \* requests the service sent: [rid, to, ds (for FINDNODE), lookup (BOOLEAN)]
        offdist |-> {},      \* responders that returned a record at a distance that was not requested
        votes |-> <<>>,      \* latest PONG vote per eligible voter: [voter, sock]
+       answered |-> {},     \* requests of the node that already got a response or a failure report (later ones are ignored)
        offered |-> {},      \* ids offered to the table by a session report or an explicit add
        xs |-> <<>>]         \* FINDNODE exchanges: [rid, to, x] with x the request state of NodesExchange.tla, fed with the observed packets
 Init == l = 1 /\ t = T0 /\ m = M0 /\ viols = <<>> /\ sr = [t |-> T0, ret |-> "ok", out |-> <<>>]
@@ -46,6 +47,7 @@ Contactable(mode, shape) ==
 PassesFilter(cfg, shape) == cfg.filter = "all" \/ shape # "mark"
 
 \* ------------------------------------------------------------------ ledger
+IsV6(s) == s \in {"X6", "Y6"} \/ \E k \in 1..40 : s = "p" \o ToString(k) \o ".v6"
 \* feeding the packets of one step into the request state; `acc` collects what the step must report
 XA0(ds) == [k \in DOMAIN X0(ds) \cup {"acc"} |-> IF k = "acc" THEN <<>> ELSE X0(ds)[k]]
 RECURSIVE FoldPk(_, _, _)
@@ -70,7 +72,17 @@ MonStep(mm, e) ==
              ELSE <<>>
       xs1 == [i \in 1..Len(mm.xs) |-> IF pks # <<>> /\ mm.xs[i].rid = op.req THEN [mm.xs[i] EXCEPT !.x = FoldPk(@, pks, mm.cfg.maxnodes)] ELSE mm.xs[i]]
       xs2 == xs1 \o [i \in 1..Len(newReqs) |-> [rid |-> newReqs[i].rid, to |-> newReqs[i].to, x |-> XA0(newReqs[i].ds), fn |-> newReqs[i].t = "findnode"]]
-  IN [mm EXCEPT !.running = @ /\ op.o # "shutdown", !.xs = xs2,
+      \* a PONG vote: counted by the node only if the voter is a connected outgoing peer of the routing table (before the step);
+      \* in dual-stack mode the vote of any peer is admitted while the address family it speaks for (or both) lacks the minimum of votes
+      isPong == op.o = "response_in" /\ ~Unres(e) /\ op.body.t = "pong" /\ "vote" \in DOMAIN op /\ op.req \notin mm.answered
+                /\ \E i \in 1..Len(mm.reqs) : mm.reqs[i].rid = op.req /\ mm.reqs[i].t = "ping"
+      has4 == Cardinality({i \in 1..Len(mm.votes) : ~IsV6(mm.votes[i].sock)}) >= mm.cfg.vote_min
+      has6 == Cardinality({i \in 1..Len(mm.votes) : IsV6(mm.votes[i].sock)}) >= mm.cfg.vote_min
+      needMore == mm.cfg.mode = "dual" /\ ((~has4 /\ has6 /\ ~IsV6(op.vote)) \/ (has4 /\ ~has6 /\ IsV6(op.vote)) \/ (~has4 /\ ~has6))
+      eligible == isPong /\ (needMore \/ \E i \in 1..Len(mm.table) : mm.table[i][1] = op.from /\ mm.table[i][3] = "C" /\ mm.table[i][4] = "O")
+      votes1 == IF eligible THEN SelectSeq(mm.votes, LAMBDA v : ~(v.voter = op.from /\ IsV6(v.sock) = IsV6(op.vote))) \o <<[voter |-> op.from, sock |-> op.vote]>> ELSE mm.votes
+  IN [mm EXCEPT !.running = @ /\ op.o # "shutdown", !.xs = xs2, !.votes = votes1,
+                !.answered = IF op.o \in {"response_in", "fail"} /\ ~Unres(e) /\ ~(op.o = "response_in" /\ op.body.t = "nodes" /\ op.body.total > 1) THEN @ \cup {op.req} ELSE @,
                 !.offered = IF op.o \in {"established", "add_enr"} THEN @ \cup {op.id} ELSE @,
                 !.talks = @ \o newTalks, !.tresp = @ \o newResp, !.reqs = @ \o newReqs,
                 !.table = obs.table, !.local = obs.local]
@@ -152,7 +164,23 @@ C12Viol(mm, m2, e) ==
               Row(prev, id)[2] # Row(tb, id)[2] /\ ~(Row(tb, id)[6] > Row(prev, id)[6])
         THEN {"C12.ReplaceRule"} ELSE {})
 
-MonViol(mm, m2, e) == C20Viol(mm, m2, e) \cup C14Viol(mm, e) \cup C11Viol(mm, m2, e) \cup C12Viol(mm, m2, e)
+\* ------------------------------------------------------------------ C17: the advertised UDP address follows a clear majority only
+VCount(vs, s) == Cardinality({i \in 1..Len(vs) : vs[i].sock = s})
+ThrUp(n) == (7 * n + 5) \div 10          \* round(0.7 n); where 0.7 n is a half (n = 5) the larger rounding is accepted
+C17Change(mm, m2, e, old, new, fam6) ==
+  LET vs == SelectSeq(m2.votes, LAMBDA v : IsV6(v.sock) = fam6)
+      socks == {vs[i].sock : i \in 1..Len(vs)} IN
+  (IF ~(e.op.o = "response_in" /\ ~Unres(e) /\ e.op.body.t = "pong") THEN {"C17.NotByPong"} ELSE {})
+  \cup (IF VCount(vs, new) < mm.cfg.vote_min THEN {"C17.BelowMinimum"} ELSE {})
+  \cup (IF \E r \in socks \ {new} : VCount(vs, r) >= ThrUp(VCount(vs, new)) THEN {"C17.NoClearMajority"} ELSE {})
+  \cup (IF ~(e.obs.local.seq > mm.local.seq) THEN {"C17.SeqNotIncreased"} ELSE {})
+  \cup (IF ~e.obs.local.valid THEN {"C17.InvalidSignature"} ELSE {})
+  \cup (IF ~\E i \in Evs(e, "SocketUpdated") : e.obs.ev[i].sock = new THEN {"C17.NotAnnounced"} ELSE {})
+C17Viol(mm, m2, e) ==
+  (IF e.obs.local.udp4 # mm.local.udp4 THEN C17Change(mm, m2, e, mm.local.udp4, e.obs.local.udp4, FALSE) ELSE {})
+  \cup (IF e.obs.local.udp6 # mm.local.udp6 THEN C17Change(mm, m2, e, mm.local.udp6, e.obs.local.udp6, TRUE) ELSE {})
+
+MonViol(mm, m2, e) == C20Viol(mm, m2, e) \cup C14Viol(mm, e) \cup C11Viol(mm, m2, e) \cup C12Viol(mm, m2, e) \cup C17Viol(mm, m2, e)
 
 Next ==
   /\ l <= Len(Rec) /\ l' = l + 1
